@@ -283,6 +283,16 @@ def run_case(case):
                     refc = np.fft.fft(xc, axis=ax)
                     res.check(Xc.shape == refc.shape and np.max(np.abs(Xc - refc)) <= 1e-9 * max(1.0, np.max(np.abs(refc))),
                               "dft:complex", f"dft != fft (complex) n={n} nd={nd} axis={ax}")
+                    # explicit scales: chosen coefficients only, and samples listed in any order with their positions
+                    ks = np.unique(rng.integers(0, n, int(rng.integers(1, n + 1))))
+                    Xk = F.dft(xc, axis=ax, kscale=ks)
+                    refk = np.take(refc, ks, axis=ax)
+                    res.check(Xk.shape == refk.shape and np.max(np.abs(Xk - refk)) <= 1e-9 * max(1.0, np.max(np.abs(refc))), "dft:kscale",
+                              f"dft(kscale={ks[:6].tolist()}..) != those FFT bins n={n} nd={nd} axis={ax}", counter="dft_scales_checked")
+                    perm = rng.permutation(n)
+                    Xp = F.dft(np.take(xc, perm, axis=ax), xscale=perm.astype(float), axis=ax)
+                    res.check(Xp.shape == refc.shape and np.max(np.abs(Xp - refc)) <= 1e-9 * max(1.0, np.max(np.abs(refc))), "dft:xscale",
+                              f"dft of shuffled samples with their positions as xscale != fft n={n} nd={nd} axis={ax}", counter="dft_scales_checked")
                 except Exception as e:
                     res.exception("dft:exception", e, f"n={n} nd={nd} axis={ax}")
                 nt += 1
